@@ -31,8 +31,49 @@ def find_func(tree, name, cls=None):
     raise ShapeError(f"function {cls+'.' if cls else ''}{name} not found")
 
 
+_CONST_INDEX = None
+
+
+def _const_index():
+    """name -> list of value expressions, for every module-level and class-level `NAME = <expr>` / `NAME: T = <expr>` under <repo>/demeter
+    (a constant that a refactor moved out of a function body is still found by its name)"""
+    global _CONST_INDEX
+    if _CONST_INDEX is None:
+        _CONST_INDEX = {}
+        for dp, _, fs in os.walk(os.path.join(REPO, "demeter")):
+            for f in fs:
+                if not f.endswith(".py"):
+                    continue
+                try:
+                    tree = ast.parse(open(os.path.join(dp, f)).read())
+                except SyntaxError:
+                    continue
+                scopes = [tree.body] + [n.body for n in tree.body if isinstance(n, ast.ClassDef)]
+                for body in scopes:
+                    for n in body:
+                        if isinstance(n, ast.Assign) and len(n.targets) == 1 and isinstance(n.targets[0], ast.Name):
+                            _CONST_INDEX.setdefault(n.targets[0].id, []).append(n.value)
+                        elif isinstance(n, ast.AnnAssign) and isinstance(n.target, ast.Name) and n.value is not None:
+                            _CONST_INDEX.setdefault(n.target.id, []).append(n.value)
+    return _CONST_INDEX
+
+
+def resolve(node, depth=0):
+    """a bare name / `self.NAME` / `Cls.NAME` standing for a module- or class-level constant is replaced by the expression assigned to
+    it (when that is unambiguous across the package); anything else is returned as it is"""
+    name = node.id if isinstance(node, ast.Name) else (node.attr if isinstance(node, ast.Attribute) else None)
+    if name is None or depth > 4:
+        return node
+    vals = _const_index().get(name, [])
+    dumps = {ast.dump(v) for v in vals}
+    if len(dumps) == 1:
+        return resolve(vals[0], depth + 1)
+    return node
+
+
 def const_int(node):
     """evaluate a constant integer expression (literals, + - * // ** << >>, unary minus)"""
+    node = resolve(node)
     if isinstance(node, ast.Constant) and isinstance(node.value, int):
         return node.value
     if isinstance(node, ast.UnaryOp) and isinstance(node.op, ast.USub):
@@ -51,6 +92,7 @@ def const_int(node):
 
 def const_str_decimal(node):
     """Decimal("...") / Decimal(int) / Decimal(float-literal) -> (kind, text)"""
+    node = resolve(node)
     if isinstance(node, ast.Call) and getattr(node.func, "id", getattr(node.func, "attr", None)) == "Decimal":
         a = node.args[0]
         if isinstance(a, ast.Constant):
